@@ -265,22 +265,43 @@ def starts_need_server(ctx, P, views, iters):
     ctx.floor("service start events", n, 6)
 
 
+def _canon_minmax(node):
+    """canonical text of an expression built from min/max (commutative: arguments sorted) over integer-linear terms"""
+    from ..lin import linear
+    if isinstance(node, ast.Call) and isinstance(node.func, ast.Name) and node.func.id in ("min", "max") and not node.keywords:
+        return "%s(%s)" % (node.func.id, ", ".join(sorted(_canon_minmax(a) for a in node.args)))
+    if not any(isinstance(x, ast.Call) for x in ast.walk(node)):
+        lin = linear(unparse(node))
+        if lin is not None:
+            return " + ".join("%s*%s" % (v, k) for k, v in sorted(lin[0].items())) + (" + %s" % lin[1] if lin[1] else "") if lin[0] else str(lin[1])
+    return unparse(node).replace(" ", "")
+
+
 def slots(ctx, P, views, iters):
     ob = ctx.ob("SLOT", "slotted_service: number started = min(slot_size, waiting) or capacitated min(max(slot_size - in_service, 0), waiting); at most that many starts; one get_next_slot per event")
     for view in views:
         cls, fn = view.method("find_number_of_slotted_services")
-        rets = [x for x in ast.walk(fn) if isinstance(x, ast.Return)]
-        forms = sorted(unparse(r.value).replace(" ", "") for r in rets)
-        want = sorted(["min(max(self.schedule.slot_size-self.number_in_service,0),self.number_of_individuals)", "min(self.schedule.slot_size,self.number_of_individuals)"])
-        ob.ok("%s.find_number_of_slotted_services" % view.name, "; ".join(forms))
-        if forms != want:
-            ctx.violation(ob, "R5.slot-count", "%s.find_number_of_slotted_services" % cls.name, "; ".join(forms), "slot-count-formula",
+        A = "min(max(0,self.schedule.slot_size-self.number_in_service),self.number_of_individuals)"
+        B = "min(self.number_of_individuals,self.schedule.slot_size)"
+        w0 = Walker(P, view, keep=lambda e: e.kind in ("guard", "return"), track=lambda t, f: True, inline=rules.new_helper)
+        forms, bad_branch, nret = set(), None, 0
+        for st in w0.paths_of(cls, fn):
+            rv = [e for e in st.events if e.kind == "return" and e.frame.depth == 0]
+            if st.status == "raise" or not rv or rv[-1].d.get("value_node") is None:
+                continue
+            nret += 1
+            form = _canon_minmax(rv[-1].d["value_node"])
+            forms.add(form)
+            cap = rules.path_condition(st.events, len(st.events)).get(("truth", "self.schedule.capacitated"))
+            if (form == _canon_minmax(ast.parse(A, mode="eval").body)) != (cap is True) or cap is None:
+                bad_branch = bad_branch or st
+        want = {_canon_minmax(ast.parse(A, mode="eval").body), _canon_minmax(ast.parse(B, mode="eval").body)}
+        ob.ok("%s.find_number_of_slotted_services" % view.name, "; ".join(sorted(forms)))
+        if forms != want or nret == 0:
+            ctx.violation(ob, "R5.slot-count", "%s.find_number_of_slotted_services" % cls.name, "; ".join(sorted(forms)), "slot-count-formula",
                           "services per slot must be min(slot_size, waiting) / capacitated min(max(slot_size - number_in_service, 0), waiting)", loc(fn))
-        else:
-            cap = [r for r in rets if "max(" in unparse(r.value)]
-            p = cap[0]._parent
-            if not (isinstance(p, ast.If) and guards.norm(p.test, unparse) == ("truth", "self.schedule.capacitated")):
-                ctx.violation(ob, "R5.slot-count", "%s.find_number_of_slotted_services" % cls.name, "capacitated branch", "slot-count-branch", "the capacitated formula must be used iff schedule.capacitated", loc(fn))
+        elif bad_branch is not None:
+            ctx.violation(ob, "R5.slot-count", "%s.find_number_of_slotted_services" % cls.name, "capacitated branch", "slot-count-branch", "the capacitated formula must be used iff schedule.capacitated", loc(fn), witness(bad_branch))
         cls, fn = view.method("slotted_service")
         w = Walker(P, view, keep=lambda e: (e.kind == "call" and e.d["meth"] in ("get_next_slot", "find_number_of_slotted_services", "interrupt_slotted_services")) or e.kind in ("iter", "loopexit") or
                    (e.kind == "assign" and (e.d["target"].endswith(".service_start_date"))), inline=rules.new_helper, loop_iters=iters)
